@@ -456,7 +456,12 @@ def provided_dict(job):
     """Provided values; a value whose text is registered in job['lists'] is passed as a real list."""
     lists = {t: items for t, items in job.get("lists", [])}
     lit = set(job.get("literal_keys", []))       # keys whose text stands for a python literal (falsy interrupt answers)
-    return {k: (list(lists[v]) if v in lists else IR.pyval(v)) for k, v in job["provided"]}
+    out = {k: (list(lists[v]) if v in lists else IR.pyval(v)) for k, v in job["provided"]}
+    # job['alias']: {name: "alias" | "distinct"} -- the value [[w];[w]] built from ONE inner list twice or from two equal ones
+    for k, how in job.get("alias", {}).items():
+        w = ["w"]
+        out[k] = [w, w] if how == "alias" else [["w"], ["w"]]
+    return out
 
 
 def run_job(job, *, runner=None, event_processors=None, max_concurrency=None, cache=None, on_missing=None,
